@@ -171,7 +171,9 @@ class C16(Check):
                ("pox/lib/addresses.py", "netmask_to_cidr"), ("pox/lib/addresses.py", "cidr_to_netmask"), ("pox/lib/addresses.py", "parse_cidr"),
                ("pox/lib/addresses.py", "infer_netmask"), ("pox/lib/util.py", "str_to_dpid"), ("pox/lib/util.py", "dpid_to_str")]
     trusted_base = ["model Model/Addr.lean hand-written from addresses.py / util.py (char-level text, Python int semantics); tied by this correspondence run",
-                    "socket.inet_aton / inet_ntoa are libc: the model specifies canonical dotted quads only",
+                    "socket.inet_aton / inet_ntoa are libc: the model specifies canonical dotted quads only (with fixes/C16_ip4_text.diff the code no longer calls inet_aton)",
+                    "harness/c16.py detect_variant: which of the five proposed repairs the tree has is read off the source (discriminating statement per family, "
+                    "exact shapes recorded in the evidence); the driver evaluates the matching model functions and the correspondence validates the choice",
                     "little-endian host (struct 'i'/'I' native formats in IPAddr)",
                     "harness references: ipaddress module, rfc5952() and the mask/membership one-liners in harness/c16.py"]
     assumptions = ["text is ASCII (int() also accepts Unicode digits/whitespace: not generated, not modelled)",
@@ -190,7 +192,10 @@ class C16(Check):
                   "unsupported6: leading/trailing '::' for a single group); IPAddr(text) accepts exactly the inet_ntoa texts (ip4_parse_spec); "
                   "infer_netmask / parse_cidr without a slash are the classful rules for all addresses; EthAddr(text) = reference definition "
                   "(eth_parse_spec) and the sequence constructors (eth_seq); equal => equal hash on all three types (hash_consistent). "
-                  "Defects kept as decided witnesses: D15 (ip6_rejects_defect/_witnesses), EthAddr and parse_cidr leniency, eth_seq_length_defect.")
+                  "Phase 3: for the repaired variants (fixes/C16_*.diff; which ones the tree has is read off its source) accept <=> well-formed: "
+                  "ip6_strict_iff (IPAddr6(text) = a iff the text denotes a), ip6_strict_roundtrip, eth_strict_iff, eth_seq_strict_iff, cidr_strict, cidr6_strict; "
+                  "the IPv4 text repair makes the code's recogniser the canonical one of ip4_parse_spec. "
+                  "Defects of the unrepaired code kept as decided witnesses: D15 (ip6_rejects_defect/_witnesses), EthAddr and parse_cidr leniency, eth_seq_length_defect.")
     level_note = ("Trusted: Lean kernel + propext/Classical.choice/Quot.sound, the hand-written model, the harness. The model is tied to the code only by the "
                   "differential run (all 33/129 masks, per-octet sweeps, all 256 IPv6 zero patterns x 12 print options, every Ethernet form, dpid boundaries, "
                   "grammar mutations). NOT proved, only tested against ipaddress/RFC reference: IPv6 parse_cidr text, immutability (a Python-object notion: "
